@@ -201,7 +201,7 @@ def c01_5(ctx: Ctx):
                   f"arguments are {[src(a) for a in cs[0].args] if cs else '?'}")
 
 
-@rule("C01.6", ["C01", "C07", "C11"], "modifications are ordered by (offset, registration id) and must not overlap", 6)
+@rule("C01.6", ["C01", "C07", "C11", "C09"], "modifications are ordered by (offset, registration id) and must not overlap", 6)
 def c01_6(ctx: Ctx):
     repo = ctx.repo
     fi = repo.func("rewriting._ModificationStore.resolve_offsets")
